@@ -75,6 +75,9 @@ func newEmitter(g *Gen) *Emitter {
 		// Ref: object identities. Derived references (slice elements of struct type, embedded
 		// structs, materialised field pointers) are constructors, hence injective and disjoint.
 		"(declare-datatypes ((Ref 0)) (((nil) (obj (obj_id Int)) (elemref (elemref_arr ArrRef) (elemref_idx Int)) (subref (sub_field Int) (sub_parent Ref)))))",
+		// the object a reference to an embedded struct (nested up to three levels) lives in
+		"(define-fun root1 ((r Ref)) Ref (ite ((_ is subref) r) (sub_parent r) r))",
+		"(define-fun rootref ((r Ref)) Ref (root1 (root1 (root1 r))))",
 		"(declare-sort Str 0)", "(declare-fun str_len (Str) Int)", "(declare-fun str_at (Str Int) Int)",
 		"(assert (forall ((s Str)) (! (>= (str_len s) 0) :pattern ((str_len s)))))",
 		"(declare-sort Fn 0)", "(declare-const nilfn Fn)",
